@@ -214,7 +214,7 @@ OCApply(st, o) ==
     [] o.op \in {"ToOC", "ToOTel", "RoundOC", "RoundOTel"} -> st
 
 (* tracestate entries: [k |-> key class, v |-> value]; key classes: "both" valid in both formats,  *)
-(* "otel" valid only in the W3C level-2 grammar of OpenTelemetry (e.g. starts with a digit)        *)
+(* "otel" valid only in W3C trace context (tenant id starting with a digit, "1x@sys")     *)
 Keep(ts) == SelectSeq(ts, LAMBDA e : e.k # "otel")
 HasOTelOnly(ts) == \E i \in 1..Len(ts) : ts[i].k = "otel"
 OCOut(st, o) ==
